@@ -118,10 +118,15 @@ TypeOf(kind) ==
 E == "!err"
 
 \* the answers agree with components c: ParsePath reports c's kind and every extractor whose component c
-\* has returns exactly it (extractors for components c does not have are not constrained by the property)
-Agrees(r, c) ==
+\* has returns exactly it (extractors for components c does not have are not constrained by the property).
+\* strict = the path was built from c.  For other paths that can be read as c, a repository that itself
+\* contains a reserved keyword (docker never generates one) may be reported up to any of those keywords.
+RepoAgrees(x, repo, strict) ==
+  \/ x = repo
+  \/ ~strict /\ \E k \in 1..Len(repo) - 1 : repo[k + 1] \in Reserved /\ x = SubSeq(repo, 1, k)
+Agrees(r, c, strict) ==
   /\ ~r.perr /\ <<r.type, r.sub>> = TypeOf(c.kind)
-  /\ (c.kind # "blob" => r.repo = c.repo)
+  /\ (c.kind # "blob" => RepoAgrees(r.repo, c.repo, strict))
   /\ (c.kind \in {"tag_current", "tag_index"} => r.tag = c.tag /\ r.cur = (c.kind = "tag_current"))
   /\ (c.kind \in {"revision", "tag_index"} => r.md = c.digest)
   /\ (c.kind \in {"layer_link", "layer_data"} => r.ld = c.digest)
@@ -143,9 +148,9 @@ Accepted(r, p) ==
        [] OTHER -> FALSE
 
 \* (1) a path built from components c
-BuiltOK(r, c) == Agrees(r, c)
+BuiltOK(r, c) == Agrees(r, c, TRUE)
 \* (2) any other path
-MutatedOK(r, p) == IF Parses(p) = {} THEN ~Accepted(r, p) ELSE \E c \in Parses(p) : Agrees(r, c)
+MutatedOK(r, p) == IF Parses(p) = {} THEN ~Accepted(r, p) ELSE \E c \in Parses(p) : Agrees(r, c, FALSE)
 
 ----------------------------------------------------------------------------
 (* Design model: the case space (built paths and their single mutations) and the grammar lemmas *)
